@@ -22,10 +22,15 @@ RULE = ("mapping cases = operation sequences over keys {a, A, ab, b}: exhaustive
         "the sequence replaces an existing key and removes a key; equality cases = parsed documents, every block/field x every perturbation "
         "kind; non-trivial = document with >= 1 entry with >= 2 fields; distinct = distinct sequence / document")
 ASSUMPTIONS = ["field keys distinct and not ENTRYTYPE/ID", "perturbed objects are rebuilt through the public constructors"]
-MIN = {"model_step": (100000, 1000000), "entry_invariant": (100000, 1000000), "eq_copy": (5000, 100000), "eq_perturbation": (20000, 400000), "start_entry_with_middleware_metadata": (5000, 50000)}
+MIN = {"model_step": (100000, 1000000), "entry_invariant": (100000, 1000000), "eq_copy": (5000, 100000), "eq_perturbation": (20000, 400000), "start_entry_with_middleware_metadata": (5000, 50000), "state_related_argument": (20000, 200000)}
 
 KEYS = ["a", "A", "ab", "b"]      # case variants and keys that are substrings of another key
 MUT = [(op, k) for op in ("set_field", "setitem", "pop", "pop_default", "delitem") for k in KEYS]
+# arguments RELATED to the entry's own state (seed C19-l: `pop(key, default)` with the stored field itself as default):
+# the stored Field object / an equal copy of it / the field stored under another key as `default`, and set_field
+# with the very object that is already stored
+MUT_REL = [(op, k) for op in ("pop_same", "pop_equal", "pop_other", "set_same") for k in KEYS]
+MUT2 = MUT + MUT_REL
 STARTS = [[], ["a", "b"], ["A", "a", "ab"], ["k%d" % i for i in range(12)] + ["ab", "a"] + ["j%d" % i for i in range(12)]]
 
 
@@ -60,9 +65,18 @@ def cases(tier, seed, shard, nshards):
                         c["parsed"] = (idx // nshards // 3) % 8
                     yield c
                 idx += 1
+    # state-related arguments: exhaustive to depth 2 (thorough: 3) over the wider operation set, and in every random sequence
+    for k in range(1, tier_pick(tier, 2, 3) + 1):
+        for si in range(len(STARTS)):
+            for seq in itertools.product(range(len(MUT2)), repeat=k):
+                if not any(i >= len(MUT) for i in seq):
+                    continue
+                if idx % nshards == shard:
+                    yield {"k": "map", "start": si, "ops": [list(MUT2[i]) for i in seq], "pre": PRES[(idx // nshards) % len(PRES)]}
+                idx += 1
     r = rng_for(seed, shard, "c19")
     for _ in range(tier_pick(tier, 8000, 60000) // nshards):
-        c = {"k": "map", "start": r.randrange(len(STARTS)), "ops": [list(r.choice(MUT)) for _ in range(30)], "pre": r.choice(PRES)}
+        c = {"k": "map", "start": r.randrange(len(STARTS)), "ops": [list(r.choice(MUT2)) for _ in range(30)], "pre": r.choice(PRES)}
         if r.random() < 0.4:
             c["parsed"] = r.randrange(8)
         yield c
@@ -98,6 +112,9 @@ def read_checks(e, d, typ, key):
             return "get", k
         if e.get(k, _SENTINEL) is not d.get(k, _SENTINEL):
             return "get-default", k
+        other = next((f for kk, f in d.items() if kk != k), None)
+        if e.get(k, other) is not d.get(k, other):
+            return "get-default-stored-field", k
         try:
             v = e[k]
             if k not in d or v is not d[k].value:
@@ -169,6 +186,27 @@ def check_map(case, ctx):
                 removed = removed or k in d
                 exp = d.pop(k, _SENTINEL)
                 res = e.pop(k, _SENTINEL)
+            elif op in ("pop_same", "pop_equal", "pop_other"):
+                # the default is the stored field itself / an equal copy / the field of another key (None if there is none)
+                cur = d.get(k)
+                if op == "pop_same":
+                    dflt = cur if cur is not None else next(iter(d.values()), None)
+                elif op == "pop_equal":
+                    src = cur if cur is not None else next(iter(d.values()), None)
+                    dflt = copy.deepcopy(src) if src is not None else None
+                else:
+                    dflt = next((f for kk, f in d.items() if kk != k), None)
+                removed = removed or k in d
+                exp = d.pop(k, dflt)
+                res = e.pop(k, dflt)
+                ctx.mon("state_related_argument")
+            elif op == "set_same":
+                cur = d.get(k)
+                f = cur if cur is not None else Field(k, val, 100 + step)
+                replaced = replaced or k in d
+                d[k] = f
+                res = e.set_field(f)
+                ctx.mon("state_related_argument")
             elif op == "delitem":
                 present = k in d
                 removed = removed or present
@@ -193,7 +231,7 @@ def check_map(case, ctx):
             out.append(Violation("unexpected-exception", f"C19:map:{op}:{type(ex).__name__}", dict(case=case, step=step, error=srepr(ex))))
             break
         ctx.ran()
-        if op in ("pop", "pop_default") and res is not exp:
+        if op.startswith("pop") and res is not exp:
             out.append(Violation("model-mismatch", f"C19:map:{op}:return-value", dict(case=case, step=step, got=srepr(res), want=srepr(exp))))
             break
         ctx.mon("model_step")
